@@ -18,6 +18,7 @@ import (
 	"bytes"
 	"context"
 	"fmt"
+	"io"
 	"os"
 	"path/filepath"
 	"sort"
@@ -29,7 +30,9 @@ import (
 	"dvh/internal/c13store"
 	"dvh/internal/corekit"
 	"dvh/internal/memstore"
+
 	"dvh/internal/tr"
+	"github.com/oneconcern/datamon/pkg/storage"
 
 	"github.com/oneconcern/datamon/pkg/cafs"
 	context2 "github.com/oneconcern/datamon/pkg/context"
@@ -337,6 +340,7 @@ type c13IndexSpec struct {
 	crash  int   // -1: none; k: the store dies after the k-th successful chunk Put
 	fput   []int // transient Put failures before the i-th chunk call succeeds
 	fcdel  []int // indexes of chunk Delete calls failing once
+	flist  int   // > 0: the flist-th listing call (1-based) on the metadata store fails once
 }
 
 func c13Ints(xs []int) string {
@@ -369,6 +373,10 @@ func (h *c13Hist) index(sp c13IndexSpec) bool {
 	}
 	for _, i := range sp.fcdel {
 		meta.FailCalls(c13store.Delete, i)
+		h.faults++
+	}
+	if sp.flist > 0 {
+		meta.FailCalls(c13store.List, sp.flist-1)
 		h.faults++
 	}
 	blob := c13store.New(h.blob)
@@ -428,6 +436,11 @@ func (h *c13Hist) index(sp c13IndexSpec) bool {
 		res = "ok"
 	}
 	detail := fmt.Sprintf("idx=%s fit=%s seq=%s", strings.Join(idx, ","), fit, seq)
+	if sp.flist > 0 {
+		// the command's own verdict is an input of the judge (see the driver)
+		h.c.w.Op(fmt.Sprintf("%s flist=%d hit=%d res=%s", op, sp.flist, meta.Hits[c13store.List], res), "any ## "+detail)
+		return err == nil
+	}
 	switch {
 	case err != nil:
 		h.c.w.Op(op, fmt.Sprintf("err ## left=%s cls=%s", c13ShowChunks(fresh), corekit.ErrClass(err)))
@@ -817,6 +830,57 @@ func c13DirectedCases(c *ctx) error {
 			}
 		}
 	}
+	// (3b) a resumed build hit by one transient listing fault (every listing call in turn): if the
+	// command reports success the index must be complete; else the operator retries until it does
+	for fl := 1; fl <= 6; fl++ {
+		fl := fl
+		if err := c13Directed(c, "c13", fmt.Sprintf("resume-listing-fault-%d", fl), func(h *c13Hist) error {
+			if err := h.up(0, 0, []int{0, 1}); err != nil {
+				return err
+			}
+			if err := h.up(0, 0, []int{2, 4}); err != nil {
+				return err
+			}
+			if h.index(c13IndexSpec{n: 2, ctxs: all, crash: 1}) {
+				return nil
+			}
+			if !h.index(c13IndexSpec{n: 2, ctxs: all, crash: -1, resume: true, flist: fl}) {
+				for try := 0; try < 3; try++ {
+					if h.index(c13IndexSpec{n: 2, ctxs: all, crash: -1, resume: true}) {
+						break
+					}
+				}
+			}
+			h.purge(none)
+			h.downloads()
+			return nil
+		}); err != nil {
+			return err
+		}
+	}
+	// (3c) ten chunks and more (chunk names are not zero padded: chunk-10 lists before chunk-2),
+	// killed late, then resumed
+	for _, k := range []int{10, 11} {
+		k := k
+		if err := c13Directed(c, "c13", fmt.Sprintf("kill-after-chunk-%d-of-size-1-many", k), func(h *c13Hist) error {
+			if err := h.up(0, 0, []int{0, 1, 2}); err != nil {
+				return err
+			}
+			if err := h.up(0, 0, []int{3, 4}); err != nil {
+				return err
+			}
+			if !h.index(c13IndexSpec{n: 1, ctxs: all, crash: k}) {
+				if !h.index(c13IndexSpec{n: 1, ctxs: all, crash: -1, resume: true}) {
+					h.index(c13IndexSpec{n: 1, ctxs: all, crash: -1})
+				}
+			}
+			h.purge(none)
+			h.downloads()
+			return nil
+		}); err != nil {
+			return err
+		}
+	}
 	// (4) known finding: re-upload of content whose blobs were orphaned before the index
 	return c13Directed(c, "c13", "dedup-after-index", func(h *c13Hist) error {
 		if err := h.up(0, 0, []int{1}); err != nil {
@@ -896,6 +960,63 @@ func c14Case(c *ctx) error {
 	return nil
 }
 
+// c14Rendezvous makes the first `want` calls to the store wait for each other (at most 200 ms).
+type c14Rendezvous struct {
+	*memstore.Store
+	mu      sync.Mutex
+	arrived int
+	want    int
+	release chan struct{}
+}
+
+func (r *c14Rendezvous) meet() {
+	r.mu.Lock()
+	r.arrived++
+	n := r.arrived
+	if n == r.want {
+		close(r.release)
+	}
+	r.mu.Unlock()
+	if n > r.want {
+		return
+	}
+	select {
+	case <-r.release:
+	case <-time.After(200 * time.Millisecond):
+	}
+}
+
+// every contender's first call is ANSWERED before any contender goes on
+func (r *c14Rendezvous) Has(ctx context.Context, k string) (bool, error) {
+	ok, err := r.Store.Has(ctx, k)
+	r.meet()
+	return ok, err
+}
+
+func (r *c14Rendezvous) GetAttr(ctx context.Context, k string) (storage.Attributes, error) {
+	a, err := r.Store.GetAttr(ctx, k)
+	r.meet()
+	return a, err
+}
+
+func (r *c14Rendezvous) Get(ctx context.Context, k string) (io.ReadCloser, error) {
+	rc, err := r.Store.Get(ctx, k)
+	r.meet()
+	return rc, err
+}
+
+func (r *c14Rendezvous) Put(ctx context.Context, k string, rd io.Reader, noOverwrite bool) error {
+	err := r.Store.Put(ctx, k, rd, noOverwrite)
+	r.meet()
+	return err
+}
+
+func (r *c14Rendezvous) PutCRC(ctx context.Context, k string, rd io.Reader, noOverwrite bool, crc uint32) error {
+	err := r.Store.PutCRC(ctx, k, rd, noOverwrite, crc)
+	r.meet()
+	return err
+}
+
 // c14Locks: concurrent and sequential acquisitions of the purge lock.
 func c14Locks(c *ctx, n int, force bool, held bool) {
 	c.w.Case("kind=c14 lock n=%d force=%d held=%d", n, c13b(force), c13b(held))
@@ -913,12 +1034,16 @@ func c14Locks(c *ctx, n int, force bool, held bool) {
 	var wg sync.WaitGroup
 	start := make(chan struct{})
 	oks := make([]bool, n)
+	// the contenders' FIRST calls to the metadata store meet (whatever those calls are): every
+	// check-then-act sequence is driven into its worst interleaving, an atomic create-if-absent is not affected
+	rv := &c14Rendezvous{Store: e.Meta, want: n, release: make(chan struct{})}
+	raceStores := corekit.WithStores(e.Wal, e.ReadLog, e.Blob, rv, e.VMeta)
 	for i := 0; i < n; i++ {
 		wg.Add(1)
 		go func(i int) {
 			defer wg.Done()
 			<-start
-			oks[i] = corekit.Recover(func() error { return core.PurgeLock(e.Stores, lg, core.WithPurgeForce(force)) }) == nil
+			oks[i] = corekit.Recover(func() error { return core.PurgeLock(raceStores, lg, core.WithPurgeForce(force)) }) == nil
 		}(i)
 	}
 	close(start)
